@@ -440,6 +440,8 @@ def run_C12(ctx, R):
     _per_config(ctx, R, _only_functions(tree.lst4, {'cJSON_Compare'}, 'LST4', 1))
     from .rules import numcls
     _per_config(ctx, R, lambda units, r: numcls.num4(units, r, unit_names=('cJSON.c',)))
+    from .rules import shape as _shape
+    _per_config(ctx, R, _shape.shp5)
 
 
 PARSE_FNS = {'parse_value', 'parse_array', 'parse_object', 'parse_string', 'parse_number', 'cJSON_ParseWithLengthOpts',
